@@ -167,6 +167,12 @@ type Obs struct {
 
 	StreamParams streamtypes.Params
 	Streams      []streamtypes.StreamExport
+
+	// The *Params fields above hold what the STORE holds (raw bytes of the module's params key,
+	// decoded here). ParamsMismatch lists the modules whose keeper read API reported something else
+	// ("<module>: reported {...} stored {...}"): a second, independent observation channel, needed
+	// because a keeper that answers from process memory would otherwise also feed the oracles.
+	ParamsMismatch []string
 }
 
 func (o *Obs) Acct(a sdk.AccAddress) AcctObs { return o.Accts[a.String()] }
@@ -196,6 +202,13 @@ func (l *Lab) Observe(ctx sdk.Context) *Obs {
 
 	ek := a.EnterpriseKeeper
 	o.EntParams = ek.GetParams(ctx)
+	if bz := ctx.KVStore(a.GetKey("enterprise")).Get(enttypes.ParamsKey); bz != nil {
+		var raw enttypes.Params
+		if a.AppCodec().Unmarshal(bz, &raw) == nil && raw.String() != o.EntParams.String() {
+			o.ParamsMismatch = append(o.ParamsMismatch, fmt.Sprintf("enterprise: reported {%s} stored {%s}", o.EntParams.String(), raw.String()))
+			o.EntParams = raw
+		}
+	}
 	o.POs = ek.GetAllPurchaseOrders(ctx)
 	o.Whitelist = ek.GetAllWhitelistedAddresses(ctx)
 	o.TotalLocked = ek.GetTotalLockedUnd(ctx)
@@ -208,6 +221,13 @@ func (l *Lab) Observe(ctx sdk.Context) *Obs {
 
 	wk := a.WrkchainKeeper
 	o.WrkParams = wk.GetParams(ctx)
+	if bz := ctx.KVStore(a.GetKey("wrkchain")).Get(wrkchaintypes.ParamsKey); bz != nil {
+		var raw wrkchaintypes.Params
+		if a.AppCodec().Unmarshal(bz, &raw) == nil && raw.String() != o.WrkParams.String() {
+			o.ParamsMismatch = append(o.ParamsMismatch, fmt.Sprintf("wrkchain: reported {%s} stored {%s}", o.WrkParams.String(), raw.String()))
+			o.WrkParams = raw
+		}
+	}
 	o.Wrk = wk.GetAllWrkChains(ctx)
 	o.WrkLimit = map[uint64]uint64{}
 	o.WrkBlocks = map[uint64][]wrkchaintypes.WrkChainBlock{}
@@ -220,6 +240,13 @@ func (l *Lab) Observe(ctx sdk.Context) *Obs {
 
 	bk := a.BeaconKeeper
 	o.BeaconParams = bk.GetParams(ctx)
+	if bz := ctx.KVStore(a.GetKey("beacon")).Get(beacontypes.ParamsKey); bz != nil {
+		var raw beacontypes.Params
+		if a.AppCodec().Unmarshal(bz, &raw) == nil && raw.String() != o.BeaconParams.String() {
+			o.ParamsMismatch = append(o.ParamsMismatch, fmt.Sprintf("beacon: reported {%s} stored {%s}", o.BeaconParams.String(), raw.String()))
+			o.BeaconParams = raw
+		}
+	}
 	o.Beacons = bk.GetAllBeacons(ctx)
 	o.BeaconLimit = map[uint64]uint64{}
 	o.BeaconTs = map[uint64][]beacontypes.BeaconTimestamp{}
@@ -232,6 +259,13 @@ func (l *Lab) Observe(ctx sdk.Context) *Obs {
 
 	sk := a.StreamKeeper
 	o.StreamParams = sk.GetParams(ctx)
+	if bz := ctx.KVStore(a.GetKey("stream")).Get(streamtypes.ParamsKey); bz != nil {
+		var raw streamtypes.Params
+		if a.AppCodec().Unmarshal(bz, &raw) == nil && raw.String() != o.StreamParams.String() {
+			o.ParamsMismatch = append(o.ParamsMismatch, fmt.Sprintf("stream: reported {%s} stored {%s}", o.StreamParams.String(), raw.String()))
+			o.StreamParams = raw
+		}
+	}
 	sk.IterateAllStreams(ctx, func(r, s sdk.AccAddress, st streamtypes.Stream) bool {
 		o.Streams = append(o.Streams, streamtypes.StreamExport{Receiver: r.String(), Sender: s.String(), Stream: st})
 		return false
